@@ -4,7 +4,7 @@ from __future__ import annotations
 
 import ast
 
-from ..core.repo import (AnalysisError, Repo, call_name, calls_in, definitions, dotted, is_const,
+from ..core.repo import (AnalysisError, Repo, call_name, calls_in, definitions, dotted, func_params, is_const,
                          kwarg, names_in, unparse, walk_no_nested_defs)
 from ..domains.algnf import NotArithmetic, Rat, from_ast
 from ..domains.kat import COL, ROW, Comp, Ext, KAT, Seq
